@@ -4,24 +4,24 @@ namespace DashLive.Boxes
 open DashLive.Bytes
 
 /-! ### walker -/
-theorem walkOk_of_decBoxes (ctx : SencCtx) : ∀ (fuel : Nat) (bs : Bytes) (cs : List Box),
-    decBoxes ctx fuel bs = some cs → walkOk fuel bs = true := by
+theorem walkOkT_of_decBoxes (ctx : SencCtx) : ∀ (fuel tail : Nat) (bs : Bytes) (cs : List Box),
+    decBoxes ctx tail fuel bs = some cs → walkOkT tail fuel bs = true := by
   intro fuel
   induction fuel with
   | zero =>
-    intro bs cs h
+    intro tail bs cs h
     simp only [decBoxes] at h
-    simp only [walkOk]
+    simp only [walkOkT]
     cases hb : bs.isEmpty <;> simp_all
   | succ fuel ih =>
-    intro bs cs h
+    intro tail bs cs h
     simp only [decBoxes] at h
-    simp only [walkOk]
+    simp only [walkOkT]
     cases hb : bs.isEmpty with
     | true => simp
     | false =>
       simp only [hb, Bool.false_eq_true, if_false] at h ⊢
-      cases hd : decHeader bs with
+      cases hd : decHeader tail bs with
       | none => simp [hd] at h
       | some p =>
         obtain ⟨hh, after⟩ := p
@@ -29,18 +29,23 @@ theorem walkOk_of_decBoxes (ctx : SencCtx) : ∀ (fuel : Nat) (bs : Bytes) (cs :
         by_cases hc : hh.size < hh.hdrSize ∨ bs.length < hh.size
         · simp [hc] at h
         · simp only [hc, if_false] at h ⊢
-          cases hr : decBoxes ctx fuel (List.drop (hh.size - hh.hdrSize) after) with
+          cases hr : decBoxes ctx tail fuel (List.drop (hh.size - hh.hdrSize) after) with
           | none =>
             simp only [hr] at h
             split at h <;> simp_all
           | some tl =>
-            have h2 := ih _ _ hr
+            have h2 := ih _ _ _ hr
             by_cases hk : kindOf hh.typ = .container
             · simp only [hk, if_true] at h ⊢
-              cases hp : decBoxes ctx fuel (List.take (hh.size - hh.hdrSize) after) with
-              | none => simp [hp] at h
-              | some ch => simp [ih _ _ hp, h2]
+              cases hp : decBoxes ctx ((List.drop (hh.size - hh.hdrSize) after).length + tail) fuel
+                  (List.take (hh.size - hh.hdrSize) after) with
+              | none => rw [hp] at h; simp at h
+              | some ch => rw [ih _ _ _ hp, h2]; rfl
             · simp [hk, h2]
+
+theorem walkOk_of_decFile (ctx : SencCtx) (bs : Bytes) (cs : List Box)
+    (h : decFile ctx bs = some cs) : walkOk bs.length bs = true :=
+  walkOkT_of_decBoxes ctx _ 0 bs cs h
 
 /-! ### lists of stored-size trees -/
 theorem eraseAll_append (a b : List STree) : eraseAll (a ++ b) = eraseAll a ++ eraseAll b := by
